@@ -59,7 +59,11 @@ def arrays_in(obj, out=None, depth=0):
     if out is None:
         out = []
     if isinstance(obj, np.ndarray):
-        out.append(obj)
+        if obj.dtype == object and depth < 6:
+            for v in obj.ravel():
+                arrays_in(v, out, depth + 1)
+        else:
+            out.append(obj)
     elif isinstance(obj, dict) and depth < 6:
         for v in obj.values():
             arrays_in(v, out, depth + 1)
@@ -135,6 +139,7 @@ def run_sequence(rng, n_ops):
     import tempfile
     d = int(rng.integers(1, 4))
     n = int(rng.integers(1, 6))
+    ragged = bool(rng.random() < 0.3)       # batches of different length (e.g. a run resumed with another n_particles)
     sm = StateManager(d)
     ref = RefState()
     bad = []
@@ -150,6 +155,8 @@ def run_sequence(rng, n_ops):
                              "get_history_flat", "get_history_all", "get_last", "to_dict", "results", "roundtrip_dict",
                              "update_from_dict", "save_load", "logw"]))
         try:
+            if ragged and op in ("set", "update") and rng.random() < 0.5:
+                n = int(rng.integers(1, 6))
             if op == "set":
                 k = str(rng.choice(RefState.CUR))
                 v = rand_value(rng, k, n, d)
@@ -199,8 +206,28 @@ def run_sequence(rng, n_ops):
             elif op in ("get_history_flat", "get_history_all"):
                 k = str(rng.choice(["u", "x", "logl", "blobs"] if op == "get_history_flat" else RefState.HIST))
                 if len(ref.hist[k]):
-                    r = sm.get_history(k, flat=(op == "get_history_flat"))
-                    exp = np.concatenate(ref.hist[k]) if op == "get_history_flat" else np.array(ref.hist[k])
+                    try:
+                        exp = np.concatenate(ref.hist[k]) if op == "get_history_flat" else np.array(ref.hist[k])
+                    except ValueError:
+                        exp = None          # ragged batches cannot be stacked
+                    try:
+                        r = sm.get_history(k, flat=(op == "get_history_flat"))
+                    except ValueError:
+                        if exp is None:
+                            note(op + ":ragged-raises")
+                            continue
+                        raise
+                    if exp is None:
+                        # the library chose to return something for a ragged history: it must still be a private copy
+                        note(op + ":ragged-returns")
+                        if aliases(r, sm):
+                            bad.append(("alias-get_history", f"get_history('{k}') of a ragged history hands out the internal batches"))
+                        scribble(r)
+                        msg = compare(sm, ref)
+                        if msg:
+                            bad.append((f"diverged-after-{op}", f"after overwriting what get_history('{k}') returned for a ragged history: {msg}"))
+                            break
+                        continue
                     if not RefState.same(np.asarray(r), exp):
                         bad.append(("history-content", f"get_history('{k}', flat={op == 'get_history_flat'}) differs from reference"))
                     if aliases(r, sm):
@@ -229,7 +256,11 @@ def run_sequence(rng, n_ops):
                 consistent = len(ref.hist["beta"]) == 0 or (len(ref.hist["logl"]) == len(ref.hist["beta"]) == len(ref.hist["logz"]))
                 if not consistent:
                     continue     # lenient commits left logl/beta/logz of unequal length: weights undefined, not this property
-                r = sm.compute_results()
+                try:
+                    r = sm.compute_results()
+                except ValueError:
+                    note("results:ragged-raises")      # ragged batches: the unchanged library cannot stack them
+                    continue
                 exp_lw = sm.compute_logw_and_logz(1.0)[0] if len(ref.hist["beta"]) else None
                 if aliases(r, sm):
                     bad.append(("alias-results", "an array inside compute_results() shares memory with internal state (cache)"))
